@@ -54,7 +54,7 @@ fn run_slow(c: &SlowCase, rec: &mut CaseRec) -> Result<(), String> {
     let scen = Scenario { source, cfg, seeds, prior: None, inplace: false, block_dev: false, clone_buffers: 2 };
     let what = c.what % 3;
     let stdin = c.stdin && what != 1;
-    let l2c = L2Scen { scen: scen.clone(), http: false, stdin_seed: if stdin { Some(0) } else { None }, verify_output: false, cli_writer: false };
+    let l2c = L2Scen { scen: scen.clone(), http: false, stdin_seed: if stdin { Some(0) } else { None }, verify_output: false, cli_writer: false, fault: None };
     let e = expectations(&scen);
     let delay = match what {
         0 => ("write".to_string(), "o.out".to_string(), 13_500_000 / reps, None),
